@@ -5,6 +5,8 @@ package c01
 import (
 	"bytes"
 	"fmt"
+	"os"
+	"path/filepath"
 	"testing"
 
 	"gitlab.com/gomidi/midi/v2/smf"
@@ -18,10 +20,35 @@ import (
 func TestMain(m *testing.M) { ev.Main(m) }
 
 // roundTrip writes the library value and reads it back; the result must equal the model.
-func roundTrip(s *smf.SMF, m gen.Model) string {
+func roundTrip(s *smf.SMF, m gen.Model) string { return roundTripVia(s, m, false) }
+
+// roundTripVia: viaFile uses WriteFile / ReadFile on a temporary file instead of WriteTo / ReadFrom.
+func roundTripVia(s *smf.SMF, m gen.Model, viaFile bool) string {
 	var buf bytes.Buffer
 	var werr, rerr error
 	var back *smf.SMF
+	if viaFile {
+		dir, err := os.MkdirTemp("", "verif-c01-")
+		if err != nil {
+			panic(err)
+		}
+		defer os.RemoveAll(dir)
+		path := filepath.Join(dir, "roundtrip.mid")
+		if p := ev.TryTimeout(ev.Watchdog, func() {
+			if werr = s.WriteFile(path); werr == nil {
+				back, rerr = smf.ReadFile(path)
+			}
+		}); p != "" {
+			return "WriteFile/ReadFile: " + p
+		}
+		if werr != nil {
+			return fmt.Sprintf("WriteFile failed: %v", werr)
+		}
+		if rerr != nil {
+			return fmt.Sprintf("ReadFile(WriteFile(v)) failed: %v", rerr)
+		}
+		return compareBack(back, m)
+	}
 	if p := ev.TryTimeout(ev.Watchdog, func() { _, werr = s.WriteTo(&buf) }); p != "" {
 		return "WriteTo: " + p
 	}
@@ -34,6 +61,10 @@ func roundTrip(s *smf.SMF, m gen.Model) string {
 	if rerr != nil {
 		return fmt.Sprintf("ReadFrom(WriteTo(v)) failed: %v", rerr)
 	}
+	return compareBack(back, m)
+}
+
+func compareBack(back *smf.SMF, m gen.Model) string {
 	if back == nil {
 		return "ReadFrom returned nil, nil"
 	}
@@ -65,12 +96,17 @@ func run(c gen.APICase) (res ev.Result) {
 		res.Violation = "building the value through the API: " + p
 		return
 	}
-	res.Violation = roundTrip(s, m)
+	// every 8th case goes through the file system (WriteFile / ReadFile)
+	viaFile := len(c.Tracks) > 0 && (len(c.Tracks[0].Ops)+int(c.Division))%8 == 0
+	if viaFile {
+		res.Classes = append(res.Classes, "via-WriteFile/ReadFile")
+	}
+	res.Violation = roundTripVia(s, m, viaFile)
 	return
 }
 
 var histories = ev.NewCheck("C01", "api-histories",
-	"rapid: histories of New/NewSMF1/NewSMF2, TimeFormat (metric 1..32767, four SMPTE rates), NoRunningStatus, 1..6 tracks built by Track.Add (0..3 messages per call), Track.Close early/late/omitted, SMF.Add; messages from the public constructors (channel, all meta constructors, MetaUndefined, sysex F0..F7 / F0 without F7 / F7 escape, payloads up to 70000 bytes), deltas over uint32 biased to VLQ boundaries; oracle = pure model of the API compared with ReadFrom(WriteTo(v)): format, division, track count, every (delta, bytes) incl. end-of-track; non-trivial = a track with >=2 events plus one of {running-status run, payload>=128, delta>=128, SMPTE, early close, >=2 tracks}; distinct by case hash",
+	"rapid: histories of New/NewSMF1/NewSMF2, TimeFormat (metric 1..32767, four SMPTE rates), NoRunningStatus, 1..6 tracks built by Track.Add (0..3 messages per call), Track.Close early/late/omitted, SMF.Add; messages from the public constructors (channel, all meta constructors, MetaUndefined, sysex F0..F7 / F0 without F7 / F7 escape, payloads up to 70000 bytes), deltas over uint32 biased to VLQ boundaries; oracle = pure model of the API compared with ReadFrom(WriteTo(v)) (every 8th case with ReadFile(WriteFile(v)) on a temporary file): format, division, track count, every (delta, bytes) incl. end-of-track; non-trivial = a track with >=2 events plus one of {running-status run, payload>=128, delta>=128, SMPTE, early close, >=2 tracks}; distinct by case hash",
 	func(t *rapid.T) gen.APICase {
 		return gen.API(t, gen.APIOpts{MaxTracks: 6, MaxOps: 10, MaxPayload: 70000, MaxDelta: 0xFFFFFFFF})
 	}, run)
